@@ -258,17 +258,21 @@ def gen_cases(ctx, quick):
                 add("euclid-pts", "mds", "rand", "pts", pts, N, D, d, False, rank)
             if r.chance(1, 2):
                 add("euclid-pts", "isomap", "dense", "pts", pts, N, D, d, False, rank)
-        # 4b. the same kind of data at other magnitudes (dyadic scale factors, so nothing else changes): the property is
-        #     scale-equivariant, the code must not carry absolute thresholds
-        N = r.range(4, 12)
-        D = r.range(1, 4)
-        rank = r.range(1, min(D, N - 1))
-        sc = Fraction(2) ** r.choice([-30, -20, -14, -12, -10, -9, -8, -7, -6, 8, 20])
-        pts = [[Fraction(v) * sc for v in row] for row in sp.low_rank_points(r, N, D, rank)]
-        for d in sorted({rank, min(rank + 1, N - 1)}):
-            add("euclid-pts-scaled", "mds", "dense", "pts", pts, N, D, d, False, rank)
-            add("euclid-pts-scaled", "mds", "rand", "pts", pts, N, D, d, False, rank)
-            add("euclid-pts-scaled", "kpca", "rand", "pts", pts, N, D, d, False, rank)
+        # 4b. the same kind of data at other magnitudes (power-of-two scale factors: the data stay dyadic and the whole
+        #     computation is exactly scale-equivariant): the code must not carry absolute thresholds.  Every round has one
+        #     tiny, one small and one large unit.
+        for sc_exp in (r.choice([-40, -30, -24, -20]), r.choice([-14, -12, -10, -9, -8, -7, -6]), r.choice([8, 20, 30])):
+            N = r.range(4, 10)
+            D = r.range(1, 4)
+            rank = r.range(1, min(D, N - 1))
+            sc = Fraction(2) ** sc_exp
+            pts = [[Fraction(v) * sc for v in row] for row in sp.low_rank_points(r, N, D, rank)]
+            for d in sorted({rank, min(rank + 1, N - 1)}):
+                add("euclid-pts-scaled", "mds", "dense", "pts", pts, N, D, d, D == 1 and sp.is_pow2(N), rank)
+                add("euclid-pts-scaled", "mds", "rand", "pts", pts, N, D, d, False, rank)
+                add("euclid-pts-scaled", "kpca", "dense", "pts", pts, N, D, d, sp.is_pow2(N), rank)
+                add("euclid-pts-scaled", "kpca", "rand", "pts", pts, N, D, d, False, rank)
+            add("euclid-pts-scaled", "isomap", "dense", "pts", pts, N, D, rank, False, rank)
         # 5. PSD kernels of every rank (precomputed), N = 2^m exact, other N approx
         N = r.choice(pow2) if r.chance(1, 2) else big_or_small(2)
         rank = r.range(1, N)
@@ -324,7 +328,7 @@ def correspond(ctx):
     ctx.extra["failure_signature_counts"] = dict(ctx._c05_seen)
     ctx.cov["rule"] = ("public-API runs of MDS / Kernel PCA / Isomap(k=N-1) on 7 input families (random symmetric integer and "
                        "dyadic distance matrices, integer L1 metrics, Euclidean integer points of every rank, the same at "
-                       "magnitudes 2^-30 .. 2^20, PSD kernels of every rank, linear kernels), N <= %d, d in {1, rank, rank+1, N-1, random}, dense solver everywhere and the "
+                       "magnitudes 2^-40 .. 2^30, PSD kernels of every rank, linear kernels), N <= %d, d in {1, rank, rank+1, N-1, random}, dense solver everywhere and the "
                        "randomized solver on inputs of rank <= d; each run = one trace (hook matrix + solver output + embedding) "
                        "judged in exact rational arithmetic by model_c05; non-trivial = N >= 3; distinct by case text"
                        % (32 if quick else 64))
